@@ -425,16 +425,29 @@ Section EventValue.
     - f_equal. symmetry. apply (map_unquote_tor (v0 :: v1 :: vs) H).
   Qed.
 
+  Lemma defaults_scalar cn k : In (cn, k) opts -> is_list_kind k = false -> k <> KStr ->
+    match default_lines defaults cn with [] => True | [d] => tor_values_ok k [d] = true | _ => False end.
+  Proof.
+    intros Hin Hl Hk. unfold defaults_ok in Hdfl. fold defaults in Hdfl. destruct defaults as [ls|] eqn:E; [|exact I].
+    apply andb_true_iff in Hdfl as [_ H]. pose proof (proj1 (forallb_forall _ _) H (cn, k) Hin) as X. cbn [fst snd] in X.
+    destruct (default_lines (Some ls) cn) as [|d [|d2 t]]; [exact I| |];
+      destruct k; try discriminate Hl; try congruence; try exact X; discriminate X.
+  Qed.
+
   Lemma event_value st cn k vals :
     In (cn, k) opts ->
-    tor_values_ok k vals = true -> (forall v, In v vals -> tor_value_ok v = true) ->
+    is_nil vals || tor_values_ok k vals = true -> (forall v, In v vals -> tor_value_ok v = true) ->
     dget cn (m_parsers st) = Some (ty_of k) -> dget cn (m_defaults st) = dget cn ddict ->
     mem_bytes cn (m_listp st) = is_list_kind k ->
     exists cv, cc_cval st cn (kw_of vals) = Ok cv /\
       forall st1, dget cn (m_config st1) = Some cv -> dget cn (m_defaults st1) = dget cn ddict ->
                   synced_at defaults st1 vals cn k.
   Proof.
-    intros Hin Hv Hall HP HD HL. unfold cc_cval. rewrite HP, (pyval_of_kw_getconf _ Hall). unfold conf_changed_value.
+    intros Hin Hvn Hall HP HD HL. unfold cc_cval. rewrite HP, (pyval_of_kw_getconf _ Hall). unfold conf_changed_value.
+    (* a keyword-only line is in the envelope for every kind; string and list kinds allow "unset" anyway *)
+    assert ((k = KLine \/ k = KComma \/ k = KStr) -> tor_values_ok k vals = true) as Hv3.
+    { intros Hk3. apply orb_true_iff in Hvn as [E|E]; [|exact E].
+      destruct vals; [|discriminate]. destruct Hk3 as [-> | [-> | ->]]; reflexivity. }
     destruct (kind_eqb k KPorts) eqn:Ekp.
     { (* a port list: the lines as they are; unset -> the config/defaults lines *)
       assert (k = KPorts) by (destruct k; try discriminate Ekp; reflexivity). subst k.
@@ -463,6 +476,7 @@ Section EventValue.
     - assert (k = KLine \/ k = KComma) as Hk by (destruct k; try discriminate Elk; try congruence; auto).
       assert (ty_of k = (pk_of k, vk_of k, true)) as Hty by (destruct Hk as [-> | ->]; reflexivity).
       rewrite Hty. cbn [negb]. rewrite andb_false_r.
+      assert (tor_values_ok k vals = true) as Hv by (apply Hv3; destruct Hk as [-> | ->]; auto).
       destruct (boot_list i Hdfl st cn k vals Hin Hk Hv) as [l [l' [Hp [Hl' _]]]].
       rewrite Hp. cbn [bind]. rewrite HD. unfold ddict. rewrite Hl'. cbn [bind].
       eexists. split; [reflexivity|]. intros st1 Hc _.
@@ -470,6 +484,28 @@ Section EventValue.
       rewrite Hp in Hp1. inversion Hp1. subst l1. rewrite Hl' in Hl1'. inversion Hl1'. subst l1'. now apply Hs.
     - assert (ty_of k = (pk_of k, vk_of k, false)) as Hty by (destruct k; try discriminate Elk; try congruence; reflexivity).
       rewrite Hty, HL. cbn [andb].
+      assert ((vals = [] /\ k <> KStr) \/ tor_values_ok k vals = true) as [[Evals Hns]|Hv].
+      { destruct (kind_eqb k KStr) eqn:Eks.
+        - right. apply Hv3. right. right. destruct k; try discriminate Eks; reflexivity.
+        - apply orb_true_iff in Hvn as [E|E]; [|now right]. left.
+          split; [destruct vals; [reflexivity|discriminate]|intros ->; discriminate Eks]. }
+      { (* a typed scalar option reset to its default: the config/defaults line parsed by the declared type,
+           or the sentinel when Tor gave none *)
+        subst vals.
+        cbn [getconf_value pyval_is_str]. rewrite beqb_refl. cbn [negb]. rewrite HD. unfold ddict.
+        rewrite (defaults_dict_whole i cn). fold defaults.
+        pose proof (defaults_scalar cn k Hin Elk Hns) as Hds.
+        destruct (default_lines defaults cn) as [|d [|d2 t]] eqn:Ed; cbn [dval_of]; [| |destruct Hds].
+        - eexists. split; [reflexivity|]. intros st1 Hc Hd1. split; [|intros E; congruence].
+          unfold view_of. rewrite Hc. cbn [cval_of_pyval pyval_of_kw kw_of]. rewrite beqb_refl, Hd1.
+          unfold typed_value. cbn [nonempty_values filter]. rewrite Ed, DEFAULT_agree.
+          destruct k; try discriminate Elk; try congruence; reflexivity.
+        - destruct (parse_text_agrees k d Elk Hns Hds) as [a' [Hpa Hps]].
+          destruct (parse_scalar_not_default _ _ _ Elk Hns Hps) as [_ Hnstr].
+          rewrite Hpa. cbn [bind cval_of_pyval]. eexists. split; [reflexivity|]. intros st1 Hc Hd1.
+          split; [|intros E; congruence].
+          rewrite (view_atom _ _ _ Hnstr Hc). unfold typed_value. cbn [nonempty_values filter]. rewrite Ed.
+          destruct k; try discriminate Elk; try congruence; now rewrite Hps. }
       destruct (boot_scalar i Hdfl st cn k vals Hin Elk Hv (fun v Hi => or_intror (Hall v Hi))) as [parsed [Hp _]].
       assert (exists cv,
                 (if negb (pyval_is_str (getconf_value vals) DEFAULT_VALUE)
@@ -524,7 +560,7 @@ Section EventSim.
     forallb (event_item_ok opts items) items = true -> In it items ->
     exists k, In (fst it, k) opts /\
       match snd it with Some v => tor_value_ok v = true | None => values_of_key (fst it) items = [] end /\
-      tor_values_ok k (values_of_key (fst it) items) = true.
+      is_nil (values_of_key (fst it) items) || tor_values_ok k (values_of_key (fst it) items) = true.
   Proof.
     intros H Hin. pose proof (proj1 (forallb_forall _ _) H it Hin) as X. unfold event_item_ok in X.
     destruct (dfind_ci (fst it) opts) as [[cn k]|] eqn:E; [|discriminate].
@@ -611,7 +647,7 @@ Section EventSim.
     assert (forall k kw, In (k, kw) d ->
               In k (map fst items) /\ kw = kw_of (vals_of k items) /\
               exists kind, In (k, kind) opts /\
-                           tor_values_ok kind (vals_of k items) = true /\
+                           is_nil (vals_of k items) || tor_values_ok kind (vals_of k items) = true /\
                            (forall v, In v (vals_of k items) -> tor_value_ok v = true)) as Hentry.
     { intros k kw Hin. pose proof (dget_first _ _ _ Hdn Hin) as Hg. rewrite Hdict in Hg.
       assert (In k (map fst items)) as Hki.
